@@ -40,7 +40,7 @@ class Ins:
     order: int = 0
 
 
-KEEP_DERIVES = ["Clone", "Copy", "PartialEq", "Eq"]
+KEEP_DERIVES = ["Clone", "Copy", "PartialEq", "Eq", "Debug"]
 STRIP_ROOTS = {"crate", "super", "std", "core", "alloc", "num_traits", "num_bigint", "num_integer",
                "chia_bls", "chia_sha2", "malachite_bigint", "sha3", "rand", "bitvec", "hex_literal"}
 INT_TYPES = {"u8": 8, "u16": 16, "u32": 32, "u64": 64, "u128": 128, "usize": 64,
@@ -894,7 +894,7 @@ class Assembler:
                 self.emit_bitflags(e[1])
             elif e[0] == "implraw":
                 fi, cands = self.src.find(e[1])
-                cands = [c for c in cands if c.kind == "impl"]
+                cands = [c for c in cands if c.kind in ("impl", "trait")]
                 if len(cands) != 1:
                     raise ExtractError(f"lost anchor: %implraw {e[1]}: {len(cands)} impl blocks match")
                 if open_impl is not cands[0]:
